@@ -1,6 +1,7 @@
 package scen
 
 import (
+	"errors"
 	"bytes"
 	"io"
 	"compress/flate"
@@ -13,6 +14,7 @@ import (
 	tls "github.com/refraction-networking/utls"
 	"github.com/refraction-networking/utls/zz_verif/refsrv"
 	"github.com/refraction-networking/utls/zz_verif/simnet"
+	"github.com/refraction-networking/utls/zz_verif/simrand"
 	"github.com/refraction-networking/utls/zz_verif/simrt"
 )
 
@@ -32,7 +34,7 @@ func init() {
 	Register("C22", &Info{
 		Run:   runC22,
 		Quick: 7500, Thor: 1000000,
-		Rule: "a world = one ALPS-capable fingerprint (parrots whose spec carries application_settings on either code point, generated specs) with a drawn Config.ApplicationSettings map (with PSK-capable parrots optionally as the resumed second connection of a history) against the reference server, which negotiates an ALPN protocol and answers with application_settings on the old (17513) or new (17613) code point with drawn server settings, placed after or before the ALPN extension of EncryptedExtensions; client authentication requested or not (client with and without a certificate); strata: normal, server omits ALPN but sends ALPS, TLS 1.2 server that puts an application_settings extension into its ServerHello, code point different from the one the client offered; oracle: normal => handshake completes, ConnectionState.PeerApplicationSettings equals the server's bytes, the server received a client EncryptedExtensions message carrying exactly the settings configured for the negotiated protocol and verified the client Finished over a transcript including it; without ALPN or below TLS 1.3 => nothing is exposed (TLS 1.3 without ALPN: abort); non-trivial = ALPS extension in the server's EncryptedExtensions (or ServerHello); distinct = (fingerprint, code point, protocol, settings, stratum)",
+		Rule: "a world = one ALPS-capable fingerprint (parrots whose spec carries application_settings on either code point, generated specs) with a drawn Config.ApplicationSettings map (with PSK-capable parrots optionally as the resumed second connection of a history) against the reference server, which negotiates an ALPN protocol and answers with application_settings on the old (17513) or new (17613) code point with drawn server settings, placed after or before the ALPN extension of EncryptedExtensions; client authentication requested or not (client with and without a certificate); Config.VerifyConnection must be shown the same peer settings as the final ConnectionState; strata: normal, a client with a real ECH config that the server rejects while negotiating ALPS on the outer hello (ECHRejectionError on the client, a completed handshake with client EncryptedExtensions on the server), server omits ALPN but sends ALPS, TLS 1.2 server that puts an application_settings extension into its ServerHello, code point different from the one the client offered; oracle: normal => handshake completes, ConnectionState.PeerApplicationSettings equals the server's bytes, the server received a client EncryptedExtensions message carrying exactly the settings configured for the negotiated protocol and verified the client Finished over a transcript including it; without ALPN or below TLS 1.3 => nothing is exposed (TLS 1.3 without ALPN: abort); non-trivial = ALPS extension in the server's EncryptedExtensions (or ServerHello); distinct = (fingerprint, code point, protocol, settings, stratum)",
 		Assumptions: []string{"'rejects application settings under TLS below 1.3' is read as 'never exposes or answers them'; an application_settings extension in a TLS 1.2 ServerHello is otherwise an unknown extension"},
 		Real:        []string{"utls client ALPS path from /repo"},
 		Stub:        []string{"reference server (sim/refsrv) with ALPS support", "transport, clock, crypto/rand"},
@@ -436,7 +438,27 @@ func runC22(c *Ctx) {
 		return
 	}
 	offeredCP := dry.ALPSCodepoint
-	stratum := []string{"normal", "normal", "normal", "no-alpn", "tls12", "other-codepoint", "client-has-no-settings"}[ch.Pick(7, "stratum")]
+	stratum := []string{"normal", "normal", "normal", "no-alpn", "tls12", "other-codepoint", "client-has-no-settings", "ech-rejected"}[ch.Pick(8, "stratum")]
+	if stratum == "ech-rejected" {
+		// only fingerprints with an encrypted_client_hello extension can be given a real ECH config
+		hasECH := false
+		if sp0 := freshSpec(newSpec); sp0 != nil {
+			for _, e := range sp0.Extensions {
+				if _, ok := e.(tls.EncryptedClientHelloExtension); ok {
+					hasECH = true
+				}
+			}
+		} else if s0, err := tls.UTLSIdToSpec(idi.ID); err == nil {
+			for _, e := range s0.Extensions {
+				if _, ok := e.(tls.EncryptedClientHelloExtension); ok {
+					hasECH = true
+				}
+			}
+		}
+		if !hasECH {
+			stratum = "normal"
+		}
+	}
 	serverSettings := make([]byte, ch.Range(0, 200, "srv-settings-len"))
 	ch.Bytes(serverSettings, "srv-settings")
 	clientSettings := make([]byte, ch.Range(0, 200, "cli-settings-len"))
@@ -445,6 +467,25 @@ func runC22(c *Ctx) {
 	ccfg.ApplicationSettings = map[string][]byte{proto: clientSettings, "other-proto": []byte("not-for-this-connection")}
 	if stratum == "client-has-no-settings" {
 		ccfg.ApplicationSettings = map[string][]byte{"other-proto": []byte("x")}
+	}
+	// what Config.VerifyConnection is shown (the server's EncryptedExtensions have been processed by then)
+	var vcSettings []byte
+	vcSeen := false
+	ccfg.VerifyConnection = func(cs tls.ConnectionState) error {
+		vcSettings, vcSeen = append([]byte(nil), cs.PeerApplicationSettings...), true
+		return nil
+	}
+	if stratum == "ech-rejected" {
+		// a real ECH config the server has no key for: the server carries on with the outer hello and
+		// negotiates application settings there; the client owes its EncryptedExtensions (covered by
+		// the transcript of the handshake that is actually completed) and then reports the rejection
+		e, err := buildECH(simrand.NewStream(ch.U64("ech-keys")), uint8(ch.Pick(256, "ech-cid")), "public.ech.test", 32, [][2]uint16{{1, 1}})
+		if err != nil {
+			c.R.Harness = "ech setup: " + err.Error()
+			return
+		}
+		ccfg.EncryptedClientHelloConfigList = e.list
+		ccfg.MinVersion = tls.VersionTLS13
 	}
 	cfg := refCfg()
 	if g := firstClassicalShare(OfferOf(dry, 0)); g != 0 {
@@ -537,6 +578,9 @@ func runC22(c *Ctx) {
 		if !bytes.Equal(peerSettings, serverSettings) {
 			c.Violate(fmt.Sprintf("peer-application-settings-differ cp=%d", offeredCP), "%s: client exposes %x, server sent %x", c.R.Class, peerSettings, serverSettings)
 		}
+		if vcSeen && !bytes.Equal(vcSettings, serverSettings) {
+			c.Violate(fmt.Sprintf("peer-application-settings-missing-in-VerifyConnection cp=%d", offeredCP), "%s: Config.VerifyConnection was shown %x, the server sent %x", c.R.Class, vcSettings, serverSettings)
+		}
 		if !cfg.Byz.ClientEESeen {
 			c.Violate(fmt.Sprintf("client-encrypted-extensions-missing cp=%d", offeredCP), "%s", c.R.Class)
 		} else {
@@ -552,6 +596,29 @@ func runC22(c *Ctx) {
 			c.Violate("echo-failed-after-alps", "%s: %s", c.R.Class, o.Describe())
 		}
 		c.Probe(fmt.Sprintf("alps-exchanged-%d", offeredCP))
+	case "ech-rejected":
+		var rej *tls.ECHRejectionError
+		if !errors.As(o.CErr, &rej) {
+			c.Violate(fmt.Sprintf("alps-with-rejected-ech-not-reported cp=%d %s", offeredCP, negErrClass(o)), "%s: client error %v (want ECHRejectionError); server: %v", c.R.Class, o.CErr, o.SErr)
+			return
+		}
+		// (the client leaves with an ech_required alert right after its Finished: the server may see
+		// that alert or a closed transport while it writes its tickets - but nothing else)
+		benign := func(e error) bool {
+			if e == nil {
+				return true
+			}
+			m := e.Error()
+			return strings.Contains(m, "broken pipe") || strings.Contains(m, "EOF") || strings.Contains(m, "closed") || strings.Contains(m, "reset") || strings.Contains(m, "encrypted client hello required") || strings.Contains(m, "alert(121)")
+		}
+		if !o.SDone && !benign(o.SErr) {
+			c.Violate(fmt.Sprintf("alps-with-rejected-ech-server-handshake-failed cp=%d", offeredCP), "%s: the server could not complete the outer handshake: %v (client EncryptedExtensions seen=%v)", c.R.Class, o.SErr, cfg.Byz.ClientEESeen)
+			return
+		}
+		if !cfg.Byz.ClientEESeen {
+			c.Violate(fmt.Sprintf("client-encrypted-extensions-missing cp=%d ech-rejected", offeredCP), "%s", c.R.Class)
+		}
+		c.Probe("alps-with-rejected-ech")
 	case "no-alpn":
 		if o.CDone {
 			c.Violate("alps-accepted-without-alpn", "%s: handshake completed; exposed settings %x", c.R.Class, peerSettings)
